@@ -3,7 +3,9 @@ one canonical form of constructs that maintainers routinely rewrite into each ot
 
   E1  !(a == b) -> a != b ; !(a != b) -> a == b ; !!a -> a                     (integral / pointer / bool operands only)
   E2  comparisons are oriented: the operand with the smaller text on the left (a > b  ==  b < a)
-  E3  (a < b) ? a : b and friends -> min(a, b) / max(a, b); arguments of min / max sorted by text
+  E3  (a < b) ? a : b and friends -> min(a, b) / max(a, b); arguments of min / max sorted by text (for floating operands only
+      the strict forms are rewritten; the canonical argument order differs from the source only for NaN / signed zeros, which no
+      rule decides through these expressions)
   E5  for unsigned X (own type unsigned, or unsigned char / short promoted): 0 < X, 1 <= X -> 0 != X ; 0 >= X, 1 > X -> 0 == X
   E6  0 != (a & b) -> (a & b) used as a bool ; 0 == (a & b) -> !(a & b)          (bit tests are written implicitly in this code base)
   E7  c ? true : false -> c ; c ? false : true -> !c
@@ -15,6 +17,7 @@ one canonical form of constructs that maintainers routinely rewrite into each ot
   S3  if (a) { if (b) X }  ->  if (a && b) X                                (no else on either)
   S6  for (T i = 0; i < X.size(); ++i) { .. X[i] .. } with i used only as the index of the plain member / variable X -> range-for over X
   S9  for (auto it = X.begin(); it != X.end(); ++it) { .. *it .. it->m .. } with it used only dereferenced -> range-for over X
+  S7a while (c(x)) { B; ++x; } (no continue) -> for (; c(x); ++x) { B }
   S7  T i = a; while (c(i)) { body; ++i; } (no continue, i dead afterwards) -> for (T i = a; c(i); ++i) body
   S4  a void function body / a loop body that ends with `if (a && b) { X }` -> `if (!a) return / continue; if (!b) ...; X` (guard-clause form)
   S8  if (a > b) a = b; -> a = min(a, b); if (a < b) a = b; -> a = max(a, b)   (integers)
@@ -177,7 +180,9 @@ def norm_expr(e):
         if isinstance(c, dict) and c.get("k") == "Bin" and c.get("op") in ("<", ">", "<=", ">="):
             l, r, a, b = c["l"], c["r"], e.get("a"), e.get("e")
             try:
-                if not (_is_float(_strip(l)) or _is_float(_strip(r))):
+                # floating operands: only the strict forms, which are the definitions of std::min / std::max
+                # (std::min(a, b) == (b < a) ? b : a ; std::max(a, b) == (a < b) ? b : a)
+                if not (_is_float(_strip(l)) or _is_float(_strip(r))) or c["op"] in ("<", ">"):
                     pick = None
                     if _same(a, l) and _same(b, r):
                         pick = "min" if c["op"] in ("<", "<=") else "max"
@@ -261,6 +266,33 @@ def _is_step(e, d):
         a = _strip(e["args"][0])   # iterator increment (prefix, or postfix as a whole statement)
         return isinstance(a, dict) and a.get("k") == "Ref" and a.get("d") == d
     return isinstance(e, dict) and e.get("k") == "Un" and e.get("op") == "++" and isinstance(_strip(e.get("e")), dict) and _strip(e["e"]).get("k") == "Ref" and _strip(e["e"]).get("d") == d
+
+
+def _step_to_inc(f):
+    """S7a: a loop without init / increment whose body ends with `++x` for a local x of its condition, and has no `continue`:
+    the step becomes the loop increment (`while (c) { B; ++x; }` == `for (; c; ++x) { B }`)"""
+    if not (isinstance(f, dict) and f.get("k") == "For" and f.get("inc") is None and f.get("c") is not None):
+        return f
+    body = _stmts(f.get("b"))
+    if not body or not isinstance(body[-1], dict) or body[-1].get("k") != "Expr":
+        return f
+    last = _strip(_incdec(body[-1].get("e")))
+    tgt = None
+    if isinstance(last, dict) and last.get("k") == "Un" and last.get("op") == "++":
+        tgt = _strip(last.get("e"))
+    elif isinstance(last, dict) and last.get("k") == "OpCall" and last.get("op") == "++" and last.get("args"):
+        tgt = _strip(last["args"][0])
+    if not (isinstance(tgt, dict) and tgt.get("k") == "Ref" and tgt.get("dk") == "local" and _refs_to(f["c"], tgt.get("d"))):
+        return f
+    conts = []
+    _walk(f.get("b"), lambda x: conts.append(x) if x.get("k") == "Continue" else None)
+    if conts or any(_is_step(b.get("e"), tgt["d"]) for b in body[:-1] if isinstance(b, dict) and b.get("k") == "Expr"):
+        return f
+    g = dict(f)
+    g["inc"] = _incdec(body[-1]["e"])
+    g["b"] = {"k": "Block", "s": body[:-1], "loc": (f.get("b") or {}).get("loc")}
+    g.pop("was", None)
+    return g
 
 
 def _while_to_for(stmts):
@@ -425,7 +457,7 @@ def _while_to_for_pre(stmts):
                 c = dict(c)
                 c["b"] = {"k": "Block", "s": body[:-1] + [last], "loc": (b or {}).get("loc")}
         tmp.append(c)
-    return _while_to_for(tmp)
+    return [_step_to_inc(x) for x in _while_to_for(tmp)]
 
 
 def norm_stmt(s):
